@@ -1057,6 +1057,8 @@ def array(x, dtype=None, copy=True, ndmin=0, order=None, **kw):
         if dt is None:
             dt = _result_dtype(_flat_cells(nested))
         r = SArr(_map(lambda c: cast_cell(c, dt), a), dt)
+        if r.swapped:
+            r.a = _map(symx.bswap, r.a)
     if ndmin and r.ndim < ndmin:
         r = SArr(r.a.reshape((1,) * (ndmin - r.ndim) + r.a.shape), r.dt)
     return r
